@@ -44,7 +44,7 @@ def programs(cls_name: str, meth: str) -> Optional[dict]:
 
 
 class Call:
-    __slots__ = ("obj", "kind", "cls", "can", "payload", "effects", "results", "ret", "before", "sent0", "state", "node_state", "compare")
+    __slots__ = ("obj", "kind", "cls", "can", "payload", "effects", "results", "ret", "before", "sent0", "state", "node_state", "compare", "pre")
 
 
 class World:
@@ -125,30 +125,51 @@ class World:
             c.state = _o.operating_state.name
             c.node_state = world.nodes[side].operating_state.name
             c.compare = compare
+            c.pre = (getattr(getattr(c.payload, "ftp_command", None), "name", None), getattr(getattr(c.payload, "status_code", None), "name", None),
+                     getattr(c.payload, "status_code", None) is not None) if type(c.payload).__name__ == "FTPPacket" else None
             env = world._env(c, k) if compare else None
             world.stack.append(c)
+            c.ret = None
+            raised = True
             try:
                 c.ret = real(_o, *a, **k)
+                raised = False
             finally:
                 world.stack.pop()
+                if raised:
+                    # e.g. `add_connection` with a session id the session manager does not know (a payload handed straight to
+                    # `receive`): the exception propagates as in the real code; the call is not compared with the model, but the
+                    # oracles below still judge what was called up to that point
+                    world._judge(c, side, cls, meth, k.get("payload", a[0] if a else None), _o, raised=True)
             if compare:
                 world.records.append(c)
             c.payload = env      # keep only the evaluated environment
-            if not c.can:
-                bad = []
-                if c.ret:
-                    bad.append(f"returned {c.ret!r}")
-                if base._snapshot(_o) != c.before:
-                    bad.append("state of the object changed")
-                if world.frames_out[side] != c.sent0:
-                    bad.append(f"{world.frames_out[side] - c.sent0} frame(s) left the node")
-                if c.effects:
-                    bad.append("called " + ",".join(c.effects))
-                if bad:
-                    world.oracle.append(("payload-handled-while-not-running",
-                                         f"{cls}.{meth} on {side} while {c.state}/node {c.node_state}: " + "; ".join(bad), cls))
+            world._judge(c, side, cls, meth, k.get("payload", a[0] if a else None), _o)
             return c.ret
         object.__setattr__(obj, meth, wrapped)
+
+    def _judge(self, c: Call, side: str, cls: str, meth: str, payload, obj, raised: bool = False):
+        if c.can and cls == "FTPClient" and meth == "receive" and c.pre is not None:
+            # the client's connection bookkeeping, stated on the implementation alone (command and status as they were BEFORE the call)
+            cmd, st, has_status = c.pre
+            want_add = st == "OK" and cmd == "PORT"
+            want_term = st == "OK" and cmd == "QUIT"
+            seen_term = "terminate_connection" in c.effects
+            if has_status and (("add_connection" in c.effects) != want_add or (seen_term != want_term and not (raised and want_term))):
+                self.oracle.append(("ftp-client-connection-bookkeeping", f"answer {cmd}/{st}: called {c.effects}", cls))
+        if not c.can:
+            bad = []
+            if c.ret:
+                bad.append(f"returned {c.ret!r}")
+            if base._snapshot(obj) != c.before:
+                bad.append("state of the object changed")
+            if self.frames_out[side] != c.sent0:
+                bad.append(f"{self.frames_out[side] - c.sent0} frame(s) left the node")
+            if c.effects:
+                bad.append("called " + ",".join(c.effects))
+            if bad:
+                self.oracle.append(("payload-handled-while-not-running",
+                                     f"{cls}.{meth} on {side} while {c.state}/node {c.node_state}: " + "; ".join(bad), cls))
 
     def _env(self, c: Call, kwargs: dict) -> dict:
         """the values of the type tests and payload tests of the translated chain, evaluated on the real payload BEFORE the call"""
@@ -232,7 +253,8 @@ def gen_relay_case(rng: Rng, max_ops: int = 24) -> dict:
             to = rng.choice(["ftp-client", "ftp-server", "ftp-server", "c2-server", "c2-beacon"])
             ops.append({"op": "hand", "side": "B" if to in ("ftp-server", "c2-beacon") else ("A" if to == "c2-server" else rng.choice(["A", "B"])), "to": to,
                         "payload": rng.choice(["ftp:PORT:-", "ftp:PORT:OK", "ftp:QUIT:OK", "ftp:QUIT:-", "ftp:STOR:-", "ftp:RETR:-", "ftp:RETR:NOT_FOUND",
-                                               "ftp:LIST:-", "c2:KEEP_ALIVE", "c2:INPUT", "c2:OUTPUT", "junk"])})
+                                               "ftp:LIST:-", "ftp:QUIT:OK", "ftp:STOR:OK", "c2:KEEP_ALIVE", "junk"] if to.startswith("ftp") else
+                                              ["c2:KEEP_ALIVE", "c2:INPUT", "c2:OUTPUT", "junk", "ftp:PORT:-"])})
         else:
             ops.append({"op": "tick"})
     return {"ops": ops}
